@@ -79,6 +79,10 @@ func (pass *DisjunctionInferMapping) ensureDiscriminator(schema *ast.Schema, def
 // Note: this function assumes a disjunction of references to structs.
 func (pass *DisjunctionInferMapping) inferDiscriminatorField(schema *ast.Schema, def *ast.DisjunctionType) (string, bool) {
 	fieldName := ""
+	if len(def.Branches) == 0 {
+		return "", false
+	}
+
 	// map[typeName][fieldName]value
 	candidates := make(map[string]map[string]any)
 
@@ -157,6 +161,10 @@ func (pass *DisjunctionInferMapping) buildDiscriminatorMapping(schema *ast.Schem
 		referredType, found := schema.Resolve(branch)
 		if !found {
 			return nil, fmt.Errorf("could not resolve reference '%s'", branch.AsRef().String())
+		}
+
+		if !referredType.IsStruct() {
+			return nil, fmt.Errorf("reference '%s' does not refer to a struct", branch.AsRef().String())
 		}
 
 		structType := referredType.AsStruct()
